@@ -6,6 +6,9 @@
 CONSTANTS
   MaxSend = 1
   EofWithData = TRUE
+  ShapesA <- LocalShapes
+  ShapesB <- AllShapes
+  DevCloseWriterFallback = FALSE
   Emit = FALSE
   Classes = {1, 2}
   BatchSize = 32
@@ -21,6 +24,9 @@ CONSTANTS
   DevSpin = FALSE
   DevNoUnblock = FALSE
   DevAliasFlush = TRUE
+  SockQueue = FALSE
+  DevQueueRefs = FALSE
+  DevDropOnClose = FALSE
 SPECIFICATION USpec
 INVARIANTS UTypeOK UDatagrams UComplete UCompleteAny UEncoded UFlushed UMutex UBuf
 PROPERTIES UDelivMonotone UEventuallyFlushed UTermination
